@@ -125,6 +125,23 @@ def _values_only(cls):
             k.prove_eq(f"{m}: second call with the same array objects, overwritten in place, evaluates the new values", got, want)
         for buf, second in zip(bufs, (G2, G02, K2, K02)):
             k.prove_eq("the arguments are not modified", buf, second)
+        # one argument at a time: a memo keyed on PART of the arguments (say the current strain only) keeps the value that
+        # belongs to the previous reference strain - every argument is changed alone, the others keep their values
+        current = [G2, G02, K2, K02]
+        third = [k.reals("G3", 3), k.reals("G03", 3, sample=lambda r: r.normal(size=3) * 1.7), k.reals("K3", 3), k.reals("K03", 3)]
+        k.assume(third[0] @ third[0] > 0)
+        if cls is mm.Harsch2021:
+            k.assume(third[1] @ third[1] > 0)
+        for i, which in enumerate(("B_Gamma", "B_Gamma0", "B_Kappa", "B_Kappa0")):
+            for m in _METHODS:
+                getattr(mat, m)(*[np.array(list(a), dtype=object) for a in current])
+            changed = list(current)
+            changed[i] = third[i]
+            for m in _METHODS:
+                got = getattr(mat, m)(*[np.array(list(a), dtype=object) for a in changed])
+                want = getattr(cls(Ei, Fi), m)(*[np.array(list(a), dtype=object) for a in changed])
+                k.prove_eq(f"{m}: after a call with other values of {which} only, the result belongs to the new {which}", got, want)
+                getattr(mat, m)(*[np.array(list(a), dtype=object) for a in current])  # back to the previous values before the next method
 
     return c
 
